@@ -42,6 +42,7 @@ type Knobs struct {
 	StreamInt bool  `json:"stream_interceptor"`
 	WarmBytes []int `json:"warm_bytes,omitempty"` // capacities pre-loaded into bytesPool
 	WarmBufs  []int `json:"warm_bufs,omitempty"`
+	ExtraCodecs int `json:"extra_codecs,omitempty"` // additional content types registered with CodecOption (changes len/cap of the mux's shared offer lists)
 }
 
 type ReqFault struct {
@@ -615,6 +616,14 @@ func (r *reqState) serverTask(mux http.Handler) {
 
 // ---- the mux under test ------------------------------------------------------------
 
+// extraCodec is a JSON codec under another name and content type.
+type extraCodec struct {
+	larking.CodecJSON
+	name string
+}
+
+func (c extraCodec) Name() string { return c.name }
+
 type nopStats struct{}
 
 func (nopStats) TagRPC(ctx context.Context, _ *stats.RPCTagInfo) context.Context   { return ctx }
@@ -641,6 +650,9 @@ func muxOptions(sc *MuxScenario, world *World) []larking.MuxOption {
 	}
 	if k.MaxRecv > 0 {
 		opts = append(opts, larking.MaxReceiveMessageSizeOption(k.MaxRecv))
+	}
+	for i := 0; i < k.ExtraCodecs; i++ {
+		opts = append(opts, larking.CodecOption("application/x-sim-"+strconv.Itoa(i), extraCodec{larking.CodecJSON{}, "xsim" + strconv.Itoa(i)}))
 	}
 	if k.Stats {
 		opts = append(opts, larking.StatsOption(nopStats{}))
@@ -686,6 +698,8 @@ type muxRun struct {
 	stop   core.StopReason
 	mux    *larking.Mux
 	parked []string
+	bubblePanic string  // the bubble could not end: goroutines blocked for ever
+	leftBehind  []string
 	stuck  []*reqState // requests that had not returned when the driver stopped
 	blocked []string   // where goroutines with larking frames were blocked at that moment
 	setupErr error
@@ -720,8 +734,8 @@ func (d allDone) Enabled(int) bool {
 
 // runMuxScenario executes one scenario under one tape inside a fresh bubble.
 // prepare (optional) runs inside the bubble before the tasks are created.
-func runMuxScenario(t *testing.T, sc *MuxScenario, tape *core.Tape) *muxRun {
-	mr := &muxRun{sc: sc}
+func runMuxScenario(t *testing.T, sc *MuxScenario, tape *core.Tape) (mr *muxRun) {
+	mr = &muxRun{sc: sc}
 	larking.VerifDrainPools()
 	larking.VerifWarmPools(sc.Knobs.WarmBytes, sc.Knobs.WarmBufs)
 	if !raceEnabled {
@@ -729,6 +743,16 @@ func runMuxScenario(t *testing.T, sc *MuxScenario, tape *core.Tape) *muxRun {
 		// mutex would add happens-before edges between requests
 		rand.Seed(int64(tape.Draw(1 << 30)))
 	}
+	// A run that leaves a goroutine blocked for ever (e.g. a handler waiting
+	// on a context nobody cancels) makes the bubble end with a deadlock panic
+	// on this goroutine: keep it, so that the verdict computed so far is still
+	// reported; the process is not reused afterwards.
+	defer func() {
+		if p := recover(); p != nil {
+			mr.bubblePanic = fmt.Sprint(p)
+			mr.leftBehind = blockedLarkingFrames()
+		}
+	}()
 	synctest.Test(t, func(t *testing.T) {
 		sim := core.NewSim(tape)
 		mr.sim = sim
@@ -942,6 +966,9 @@ func (mr *muxRun) globalInvariants(prop string) *Violation {
 			return violationf(prop, "panic", mr.contextKey(rs)+"@"+larkingFrame(rs.panicStack), "request %d: panic escaped ServeHTTP: %v\n%s", rs.spec.ID, rs.panicVal, trimStack(rs.panicStack))
 		}
 	}
+	if mr.sim == nil {
+		return violationf(prop, "harness-no-simulation", "harness", "the bubble did not start: %s", mr.bubblePanic)
+	}
 	if san := mr.sim.Sanity(); len(san) > 0 {
 		return violationf(prop, "concurrent-io-on-one-stream", "sim-sanity", "%s; parked: %v", strings.Join(san, "; "), mr.parked)
 	}
@@ -965,6 +992,13 @@ func (mr *muxRun) globalInvariants(prop string) *Violation {
 		sort.Strings(mr.parked)
 		return violationf(prop, rule, ctx, "requests %v never returned (stop=%s after %d steps, fake clock pushed %v); parked operations: %v; goroutines blocked inside larking: %v", stuck, mr.stop, mr.sim.StepNo(), mr.sim.Horizon, mr.parked, mr.blocked)
 	}
+	if mr.bubblePanic != "" {
+		// every request returned, yet something stayed blocked after teardown
+		if len(mr.leftBehind) > 0 {
+			return violationf(prop, "goroutine-left-behind", strings.Join(mr.leftBehind, ","), "all requests returned, but after teardown goroutines were still blocked inside larking: %v (%s)", mr.leftBehind, mr.bubblePanic)
+		}
+		return violationf(prop, "harness-bubble-deadlock", "harness", "%s (no larking frame among the blocked goroutines)", mr.bubblePanic)
+	}
 	return nil
 }
 
@@ -982,6 +1016,7 @@ func trimStack(s string) string {
 func (mr *muxRun) fill(res *RunResult, tape *core.Tape) {
 	res.Scenario = mr.sc
 	res.Tape = tape.Recorded()
+	res.Dirty = mr.bubblePanic != ""
 	if mr.sim != nil {
 		res.Steps = mr.sim.StepNo()
 		res.SimTime = mr.sim.Now()
